@@ -238,7 +238,17 @@ var (
 func secondView(p *Prog, pd *propDef, tier string, c *Ctx, panicMsg string, known []knownFinding) (*Ctx, string, map[string]interface{}) {
 	if !view2Tried {
 		view2Tried = true
-		ov, st := buildInlinedView(p)
+		var ov map[string][]byte
+		var st *inlineStats
+		func() {
+			// the view is an aid against false alarms only: if it cannot be built the source view's verdict stands
+			defer func() {
+				if r := recover(); r != nil {
+					ov, st = nil, &inlineStats{TypeError: fmt.Sprintf("inliner panic: %v", r)}
+				}
+			}()
+			ov, st = buildInlinedView(p)
+		}()
 		view2Stats = st
 		if ov != nil {
 			p2, err := Load(p.Root, ov, nil)
